@@ -1,10 +1,11 @@
 """C11 -- an OTAA join establishes exactly the session the JoinAccept defines."""
 import re
-from .. import core, machist, macstage, lw
+from .. import adevhist, ndevhist, core, machist, macstage, lw
 
 ID = "C11"
 THEOREMS = ["C11_join_request", "C11_only_authentic_accept_joins", "C11_no_join_accept", "C11_class_c_before_join",
-            "C11_authentic_accept_joins", "C11_session_of_network_accept", "C11_cflist", "C11_region_wf_initial", "C11_region_wf_preserved"]
+            "C11_authentic_accept_joins", "C11_session_of_network_accept", "C11_cflist", "C11_region_wf_initial", "C11_region_wf_preserved",
+            "C11_async_join_needs_authentic_accept", "C11_nb_join_needs_authentic_accept"]
 KINDS = ["JoinRequest", "JoinAccept", "joined", "uplink MIC", "device address", "counter"]
 # regional facts written from RP002, independent of the implementation's tables
 BAND = {0: (915000000, 928000000), 1: (915000000, 928000000), 2: (915000000, 928000000), 3: (917000000, 920000000),
@@ -208,6 +209,9 @@ def run(rep, tier, rng):
     macstage.oracle_pass(rep, lines, KINDS, extra=oracle)
     # RX1 / RX2 / no arrival through both front-ends
     fl = frontends(rng, tier)
+    # the front-end theorems (C11_async_/C11_nb_join_needs_authentic_accept) speak of the code through this correspondence
+    core.diff_stage(rep, "X:C11:front-ends", fl + [l for l in adevhist.histories(rng.fork("adev"), tier) + ndevhist.histories(rng.fork("ndev"), tier) if "| join" in l],
+                    lambda c, i, m: frontend_oracle(c, i) if c in set(fl) else None)
     io = core.run_lines(core.harness_bin(), fl)
     bad = 0
     for c, o in zip(fl, io):
